@@ -78,6 +78,14 @@ func (w *writer) NeedsRollover(rollover int64) bool {
 }
 
 func (w *writer) Publish(msgs []message.Message) (int64, error) {
+	// nothing of a batch is written unless all of it can be: a message refused halfway
+	// would leave the ones before it in the files, at offsets that are assigned again
+	for i := range msgs {
+		if err := message.CheckSize(msgs[i]); err != nil {
+			return OffsetInvalid, err
+		}
+	}
+
 	nextOffset, indexTime := w.index.getNext()
 
 	items := make([]index.Item, len(msgs))
